@@ -8,7 +8,13 @@ on every run (never imported here):
   knownKeys   Dosini._known_flowir U keys(_translate_map)   (keys that never become variables)
   optionPaths leaves of FlowIR.default_component_structure()  (every option a component has)
 
-The printers/parsers are classified by the shape of the expression (`str(value)`, `str(value).lower()`,
+The executor writer (`Dosini._comp_executors_to_str`) is NOT read by shape: the function is compiled alone from its source
+text (or, when it calls helpers, taken from the imported class of the same tree) and run on every subset of the executors
+the reader knows, each field holding a sentinel (probe_executor_writer): a field that comes out under one key in every
+probe holding it is an `ident` entry (or a pass-through prefix), one that comes out only in some of them (written only
+when another executor is present ...) is an `.unknown` entry.  Any spelling of a per-executor writer gives the same table.
+`tables_safe()` is what the harness calls: it never raises and names the parts that could not be extracted.
+The other printers/parsers are classified by the shape of the expression (`str(value)`, `str(value).lower()`,
 `' '.join(value)`, `value_to_int(value, key)` ...); an expression that is not recognised becomes
 `.unknown`, which makes the pin theorem `tables_agree` fail to build (on purpose).
 `tables()` returns the same information as python data for the harness.
@@ -137,7 +143,7 @@ def _dump_entries_of_call(call, fn, env, roots, nested, tmap, out, optional_over
         out.append((prefix + [name], key, classify_printer(vexpr)))
 
 
-def extract_dump(tree):
+def extract_dump(tree, candidates=None):
     out = []
     passthrough = []
     roots = {"comp": [], "flowir_component": []}
@@ -203,29 +209,145 @@ def extract_dump(tree):
                 out.append((["?"], key, "unknown"))
     if not found:
         raise Unsupported("references writer not found")
-    # executors
-    fn = genconst.find_function(tree, "Dosini", "_comp_executors_to_str")
+    # executors: the table is read off the BEHAVIOUR of the writer (see probe_executor_writer): independent of how the
+    # function spells its look-ups, and a writer that is not a per-executor table gets `.unknown` printers
+    ex_out, ex_pass = probe_executor_writer(tree, candidates or [])
+    return out + ex_out, passthrough + ex_pass
 
-    def listcomp_src(node):
-        # [ex for ex in executors['pre'] if ex.get('name') == 'lsf-dm-in'][0]
-        if not (isinstance(node, ast.Subscript) and isinstance(node.value, ast.ListComp)):
-            raise Unsupported("executor selection")
-        lc = node.value
-        gen = lc.generators[0]
-        stage = _const_str(gen.iter.slice, {})
-        cmp_ = gen.ifs[0]
-        nm = _const_str(cmp_.comparators[0], {})
-        return ["executors", stage, nm]
 
-    for n in ast.walk(fn):
-        if isinstance(n, ast.Assign) and isinstance(n.targets[0], ast.Subscript) \
-                and isinstance(n.targets[0].value, ast.Name) and n.targets[0].value.id == "ret":
-            key = _const_str(n.targets[0].slice, {})
-            v = n.value
-            fld = _const_str(v.slice, {})
-            out.append((listcomp_src(v.value) + [fld], key, "ident"))
-        if isinstance(n, ast.Assign) and isinstance(n.targets[0], ast.Name) and n.targets[0].id == "main":
-            passthrough.append(listcomp_src(n.value))
+# ------------------------------------------------------------------------------------------
+# dump side, executors: Dosini._comp_executors_to_str read off its behaviour
+# ------------------------------------------------------------------------------------------
+
+def _isolated_function(tree, cls, name):
+    """the function object of `cls.name`, compiled ALONE from its source (no import of the package): usable when the
+    function only looks at its arguments, which is what a per-component writer does"""
+    fn = genconst.find_function(tree, cls, name)
+    import copy as _copy
+    fn = _copy.deepcopy(fn)
+    fn.decorator_list = []
+    mod = ast.Module(body=[fn], type_ignores=[])
+    ast.fix_missing_locations(mod)
+    import copy as copy_module
+    import logging
+
+    class _Quiet(object):
+        def __getattr__(self, _n):
+            return lambda *a, **k: None
+    ns = {"copy": copy_module, "logging": logging, "logger": _Quiet(), "moduleLogger": _Quiet(), "Dict": dict,
+          "experiment": None}
+    exec(compile(mod, "<%s.%s>" % (cls, name), "exec"), ns)
+    return ns[name]
+
+
+def _executor_writer(tree):
+    """the writer as a function (cls, comp) -> dict: compiled alone from the source text when it only looks at its
+    arguments, otherwise (it calls helpers of the class / module) the attribute of the imported class of the same tree"""
+    try:
+        f = _isolated_function(tree, "Dosini", "_comp_executors_to_str")
+        f(None, {"name": "c", "stage": 0, "executors": {"pre": [{"name": "lsf-dm-in", "payload": "x"}], "main": [], "post": []}})
+        return f
+    except Exception:
+        pass
+    try:
+        import importlib
+        D = importlib.import_module("experiment.model.frontends.dosini")
+        bound = D.Dosini._comp_executors_to_str
+        return lambda _cls, comp: bound(comp)
+    except Exception as exc:
+        raise Unsupported("executor writer cannot be run: %r" % (exc,))
+
+
+def probe_executor_writer(tree, candidates):
+    """candidates = [(stage, executor name, field)] the READER can produce (from the parse table).  The isolated writer is run
+    on every non-empty subset of the executors (stage, name) - each alone, each pair, ... all of them - in the presence
+    and absence of an unrelated executor in the same lists, every field holding a distinct sentinel.
+      entry  (["executors", stage, name, field], key, ident)   the sentinel of the field appears under `key` in EVERY probe
+                                                               that holds the executor, and only there
+      entry  (... , key, unknown)                              it appears in some of them only (the writer is not a
+                                                               per-executor table: e.g. one executor is written only when
+                                                               another one is present) -> the pin theorem fails
+      passthrough ["executors", stage, name]                    fields the reader does not know are written under their own name
+    No entry: the field is never written (the pin theorems about option paths / the catalogue comparison notice)."""
+    f = _executor_writer(tree)
+    groups = []
+    for stage, name, _field in candidates:
+        if (stage, name) not in groups:
+            groups.append((stage, name))
+    if not groups:
+        raise Unsupported("no executor keys on the parse side")
+    if len(groups) > 6:
+        raise Unsupported("too many executor kinds to probe")
+    fields = {g: [c[2] for c in candidates if (c[0], c[1]) == g] for g in groups}
+    extra_field = "x-unlisted-field"
+
+    def sentinel(g, fld):
+        return "<<%s/%s/%s>>" % (g[0], g[1], fld)
+
+    def call(subset, noise):
+        ex = {}
+        for g in subset:
+            lst = ex.setdefault(g[0], [])
+            if noise:
+                lst.append({"name": "some-other-executor", "payload": "<<noise>>", "docker-image": "<<noise>>"})
+            e = {"name": g[1]}
+            for fld in fields[g] + [extra_field]:
+                e[fld] = sentinel(g, fld)
+            lst.append(e)
+        if noise:
+            for st in ("pre", "main", "post"):
+                ex.setdefault(st, [])
+        comp = {"name": "c", "stage": 0, "executors": ex}
+        r = f(None, comp)
+        if not isinstance(r, dict):
+            raise Unsupported("executor writer returned %s" % type(r).__name__)
+        return r
+
+    seen = {}      # (group, field) -> {key: number of probes} ; probes[(group)] = number of probes holding the group
+    held = {g: 0 for g in groups}
+    leaked = False
+    n = len(groups)
+    for mask in range(1, 2 ** n):
+        subset = [g for i, g in enumerate(groups) if mask >> i & 1]
+        for noise in (False, True):
+            r = call(subset, noise)
+            for g in subset:
+                held[g] += 1
+            for key, val in r.items():
+                hit = None
+                for g in subset:
+                    for fld in fields[g] + [extra_field]:
+                        if val == sentinel(g, fld):
+                            hit = (g, fld)
+                if hit is None:
+                    leaked = True       # a value that is no field of a probed executor (noise, constant, str() of several)
+                    continue
+                seen.setdefault(hit, {}).setdefault(key, 0)
+                seen[hit][key] += 1
+    if f(None, {"name": "c", "stage": 0}) != {} or f(None, {"name": "c", "stage": 0, "executors": {}}) != {}:
+        leaked = True
+    out, passthrough = [], []
+    for g in groups:
+        unlisted = seen.get((g, extra_field), {})
+        is_pass = unlisted.get(extra_field, 0) == held[g] and len(unlisted) == 1
+        if unlisted and not is_pass:
+            out.append((["executors", g[0], g[1], extra_field], sorted(unlisted)[0], "unknown"))
+        if is_pass:
+            passthrough.append(["executors", g[0], g[1]])
+        for fld in fields[g]:
+            keys = seen.get((g, fld), {})
+            if is_pass:
+                # every field goes out under its own name: nothing to list unless that is not what happens
+                if not (len(keys) == 1 and keys.get(fld, 0) == held[g]):
+                    out.append((["executors", g[0], g[1], fld], sorted(keys)[0] if keys else fld, "unknown"))
+                continue
+            if not keys:
+                continue
+            for key in sorted(keys):
+                always = keys[key] == held[g] and len(keys) == 1
+                out.append((["executors", g[0], g[1], fld], key, "ident" if always and not leaked else "unknown"))
+    if leaked and not out:
+        raise Unsupported("executor writer emits values that are no field of an executor")
     return out, passthrough
 
 
@@ -482,14 +604,64 @@ def backend_options(tree):
 def tables():
     tree = genconst.parse("model/frontends/dosini.py")
     keys, tm = known_keys(tree)
-    dump, passthrough = extract_dump(tree)
     parse = extract_parse(tree, tm)
+    candidates = []
+    for _k, outs in parse:
+        for p, _v in outs:
+            if len(p) == 4 and p[0] == "executors" and tuple(p[1:]) not in candidates:
+                candidates.append(tuple(p[1:]))
+    dump, passthrough = extract_dump(tree, candidates)
     backends = backend_options(tree)
     # option names of some backend that are NOT legacy keys: for the writer and the reader they are ordinary
     # component variables (the simulator backend reads its options from the variables of the component)
     backend_only = sorted({n for _b, names in backends for n in names} - set(keys))
     return dict(dump=dump, passthrough=passthrough, parse=parse, known=keys, options=option_paths(),
                 backends=backends, backend_only=backend_only)
+
+
+def tables_safe():
+    """tables() for the harness: never raises.  A part that cannot be extracted is empty and named in `errors` (the
+    generated Lean file is then a build error - genconst does that - and the harness still runs implementation + oracle)."""
+    out = dict(dump=[], passthrough=[], parse=[], known=[], options=[], backends=[], backend_only=[], errors=[])
+    try:
+        out.update(tables())
+        return out
+    except Exception as exc:    # noqa: find out which parts still work
+        out["errors"].append("tables: %s: %s" % (type(exc).__name__, str(exc)[:200]))
+    try:
+        tree = genconst.parse("model/frontends/dosini.py")
+    except Exception as exc:    # noqa
+        out["errors"].append("parse dosini.py: %s: %s" % (type(exc).__name__, str(exc)[:200]))
+        return out
+    tm = {}
+    try:
+        out["known"], tm = known_keys(tree)
+    except Exception as exc:    # noqa
+        out["errors"].append("known keys: %s: %s" % (type(exc).__name__, str(exc)[:200]))
+    try:
+        out["parse"] = extract_parse(tree, tm)
+    except Exception as exc:    # noqa
+        out["errors"].append("parse table: %s: %s" % (type(exc).__name__, str(exc)[:200]))
+    try:
+        cands = []
+        for _k, outs in out["parse"]:
+            for p, _v in outs:
+                if len(p) == 4 and p[0] == "executors" and tuple(p[1:]) not in cands:
+                    cands.append(tuple(p[1:]))
+        out["dump"], out["passthrough"] = extract_dump(tree, cands)
+    except Exception as exc:    # noqa
+        out["errors"].append("dump table: %s: %s" % (type(exc).__name__, str(exc)[:200]))
+    try:
+        out["options"] = option_paths()
+    except Exception as exc:    # noqa
+        out["errors"].append("option paths: %s: %s" % (type(exc).__name__, str(exc)[:200]))
+    try:
+        out["backends"] = backend_options(tree)
+        if out["known"]:
+            out["backend_only"] = sorted({n for _b, names in out["backends"] for n in names} - set(out["known"]))
+    except Exception as exc:    # noqa
+        out["errors"].append("backend options: %s: %s" % (type(exc).__name__, str(exc)[:200]))
+    return out
 
 
 # ------------------------------------------------------------------------------------------
